@@ -73,10 +73,16 @@ fn node(r: &mut Rng) -> NodeId {
         8 => NodeId::new(r.below(5) as u16, r.below(100000) as u32),
         9 => NodeId::new(r.below(70000) as u16, format!("n{}", r.below(6))),
         10 => VariableId::Server_ServerStatus_State.into(),
-        11 => ReferenceTypeId::HasComponent.into(),
+        11 => rtnode(r),
         12 => NodeId::new(2, Guid::null()),
         _ => NodeId::new(1 + r.below(3) as u16, ByteString::from(r.bytes(3))),
     }
+}
+/// reference TYPE nodes (sources and targets of HasSubtype references a client may add: cycles in the type tree)
+fn rtnode(r: &mut Rng) -> NodeId {
+    (*r.pick(&[ReferenceTypeId::HasComponent, ReferenceTypeId::HasNotifier, ReferenceTypeId::HasEventSource, ReferenceTypeId::HasOrderedComponent,
+               ReferenceTypeId::HasChild, ReferenceTypeId::Aggregates, ReferenceTypeId::HasProperty, ReferenceTypeId::Organizes,
+               ReferenceTypeId::HierarchicalReferences, ReferenceTypeId::NonHierarchicalReferences, ReferenceTypeId::HasTypeDefinition])).into()
 }
 fn reftype(r: &mut Rng) -> NodeId {
     match r.below(8) {
@@ -220,6 +226,8 @@ fn request(kind: u8, r: &mut Rng, h: RequestHeader, subs: &[u32]) -> SupportedMe
                  let class = *r.pick(&[NodeClass::Object, NodeClass::Variable, NodeClass::Method, NodeClass::ObjectType, NodeClass::VariableType, NodeClass::ReferenceType, NodeClass::DataType, NodeClass::View, NodeClass::Unspecified]);
                  AddNodesItem { parent_node_id: enode(r), reference_type_id: reftype(r), requested_new_node_id: enode(r), browse_name: qname(r), node_class: class, node_attributes: node_attrs(r, class),
                      type_definition: if r.chance(1, 2) { ObjectTypeId::BaseObjectType.into() } else { enode(r) } } } }).collect()) } else { None } }.into(),
+        8 if r.chance(1, 4) => AddReferencesRequest { request_header: h, references_to_add: Some((0..=n).map(|_| AddReferencesItem { source_node_id: rtnode(r), reference_type_id: ReferenceTypeId::HasSubtype.into(),
+                 is_forward: r.chance(3, 4), target_server_uri: UAString::null(), target_node_id: rtnode(r).into(), target_node_class: NodeClass::ReferenceType }).collect()) }.into(),
         8 => AddReferencesRequest { request_header: h, references_to_add: if some(r) { Some((0..=n).map(|_| { let s = if r.chance(1, 2) { NodeId::new(2, format!("v{}", r.below(4))) } else { node(r) }; AddReferencesItem { source_node_id: s.clone(), reference_type_id: reftype(r), is_forward: r.chance(1, 2),
                  target_server_uri: if r.chance(1, 10) { UAString::from("urn:o") } else { UAString::null() }, target_node_id: if r.chance(1, 5) { s.into() } else if r.chance(1, 2) { NodeId::new(2, format!("v{}", r.below(4))).into() } else { enode(r) },
                  target_node_class: *r.pick(&[NodeClass::Object, NodeClass::Variable, NodeClass::Unspecified, NodeClass::ReferenceType]) } }).collect()) } else { None } }.into(),
@@ -304,6 +312,8 @@ impl Property for P {
         v.push(Case { seed: 7, kinds: vec![11, 15, 15, 16, 20, 22, 14] });
         v.push(Case { seed: 8, kinds: vec![7, 7, 8, 8, 9, 10, 7, 9] });
         v.push(Case { seed: 9, kinds: vec![11, 15, 18, 17, 19, 12, 13, 21, 25] });
+        // references between reference types (HasSubtype cycles), then browsing and path translation with subtypes
+        for sd in 20..32u64 { v.push(Case { seed: sd, kinds: vec![8, 8, 8, 8, 2, 2, 4, 2, 8, 2, 4, 2] }); }
         v
     }
     fn gen(r: &mut Rng) -> Case {
@@ -344,7 +354,12 @@ impl Property for P {
                 if tokio::time::timeout(Duration::from_secs(15), session.wait_for_connection()).await.is_err() { handle.abort(); return false; }
                 let h = session.verif_request_header();
                 let probe = ReadRequest { request_header: h, max_age: 0.0, timestamps_to_return: TimestampsToReturn::Neither, nodes_to_read: Some(vec![ReadValueId::from(NodeId::from(&VariableId::Server_ServerStatus_State))]) };
-                let ok = matches!(tokio::time::timeout(Duration::from_secs(15), session.verif_send(probe)).await, Ok(Ok(SupportedMessage::ReadResponse(_))));
+                // "keeps serving" includes requests that need the address space write lock: a request left spinning
+                // under a read lock would let the read through and block this write for ever
+                let hw = session.verif_request_header();
+                let wprobe = WriteRequest { request_header: hw, nodes_to_write: Some(vec![WriteValue { node_id: NodeId::new(2, "v3"), attribute_id: AttributeId::Value as u32, index_range: UAString::null(), value: Variant::Int32(7).into() }]) };
+                let okw = matches!(tokio::time::timeout(Duration::from_secs(20), session.verif_send(wprobe)).await, Ok(Ok(SupportedMessage::WriteResponse(_))));
+                let ok = okw && matches!(tokio::time::timeout(Duration::from_secs(15), session.verif_send(probe)).await, Ok(Ok(SupportedMessage::ReadResponse(_))));
                 let _ = tokio::time::timeout(Duration::from_secs(2), session.disconnect()).await;
                 handle.abort();
                 ok
